@@ -247,6 +247,7 @@ let eval (kind : ostring) (ins : ostring list) : ostring list =
       | [k; n] -> mk_gent (nat_of_int (match k with "G" -> 0 | "A" -> 1 | "I" -> 2 | _ -> 3)) (n = "1") | _ -> failwith "gent")
       (Stdlib.String.split_on_char ',' ents) in
     [if c08_print_after_parse l then "Ok" else "Err"]
+  | "md_assign", [ids] -> [match c17_assign (ints_of ids) with Some r -> "Ok " ^ of_ints r | None -> "Err"]
   | _ -> failwith ("unknown kind " ^ kind)
 
 let () =
